@@ -57,6 +57,12 @@ type tr struct {
 	joins     []string              // what the branches of a non-leaving if end with
 	fuelVar   string                // the fuel variable in scope
 	depth     int
+	externs   map[string]bool       // package functions that are oracles of the generated file (ext_<name>)
+	split     map[string]bool       // functions whose top-level switch is emitted one definition per case
+	ownSlice  map[types.Object]bool // local byte slices created by make: element stores are allowed
+	usesFmt   bool
+	extUsed   map[string]string // oracle name -> Gallina type
+	extOrder  []string
 }
 
 type loopCtx struct {
@@ -174,6 +180,128 @@ func isBytes(t types.Type) bool {
 	return false
 }
 
+// isBuffer: bytes.Buffer or *bytes.Buffer, represented by the bytes written so far (only local buffers are accepted,
+// a buffer is never passed to a translated function).
+func isBuffer(t types.Type) bool {
+	if p, ok := t.(*types.Pointer); ok {
+		t = p.Elem()
+	}
+	n, ok := t.(*types.Named)
+	return ok && n.Obj().Pkg() != nil && n.Obj().Pkg().Path() == "bytes" && n.Obj().Name() == "Buffer"
+}
+
+// floats are represented by their IEEE bit pattern (a Z); the only operations accepted on them are
+// math.FloatNNfrombits, the conversion float64(float32) directly under strconv.AppendFloat, and strconv.AppendFloat itself.
+func floatBits(t types.Type) int {
+	b, ok := t.Underlying().(*types.Basic)
+	if !ok {
+		return 0
+	}
+	switch b.Kind() {
+	case types.Float32:
+		return 32
+	case types.Float64:
+		return 64
+	}
+	return 0
+}
+
+func (t *tr) oracle(name, ty string) string {
+	if _, ok := t.extUsed[name]; !ok {
+		t.extUsed[name] = ty
+		t.extOrder = append(t.extOrder, name)
+	}
+	return name
+}
+
+func selName(fset *token.FileSet, e ast.Expr) string {
+	var sb bytes.Buffer
+	printer.Fprint(&sb, fset, e)
+	return sb.String()
+}
+
+// fmtPieces parses a constant format string at translation time: literal text, %d %v %s %0Nd %Nd %.Nd %%.
+func (t *tr) fmtPieces(n ast.Node, format string, args []ast.Expr, b *binds) string {
+	var parts []string
+	lit := ""
+	flush := func() {
+		if lit != "" {
+			parts = append(parts, bytesLit(lit))
+			lit = ""
+		}
+	}
+	ai := 0
+	for i := 0; i < len(format); i++ {
+		c := format[i]
+		if c != '%' {
+			lit += string(c)
+			continue
+		}
+		i++
+		if i >= len(format) {
+			t.fail(n, "format string ends in %%")
+		}
+		if format[i] == '%' {
+			lit += "%"
+			continue
+		}
+		zero, prec := false, false
+		if format[i] == '0' {
+			zero = true
+			i++
+		} else if format[i] == '.' {
+			prec = true
+			i++
+		}
+		w := -1
+		for i < len(format) && format[i] >= '0' && format[i] <= '9' {
+			if w < 0 {
+				w = 0
+			}
+			w = w*10 + int(format[i]-'0')
+			i++
+		}
+		if i >= len(format) || ai >= len(args) {
+			t.fail(n, "format string / argument mismatch")
+		}
+		verb := format[i]
+		arg := args[ai]
+		ai++
+		at := t.info.TypeOf(arg)
+		x := t.expr(arg, b)
+		_, isInt := intType(at)
+		flush()
+		switch {
+		case (verb == 'd' || verb == 'v') && isInt:
+			switch {
+			case w < 0 && !zero && !prec:
+				parts = append(parts, "(fmt_d "+x+")")
+			case zero && w >= 0:
+				parts = append(parts, fmt.Sprintf("(fmt_0d %d %s)", w, x))
+			case prec && w >= 0:
+				parts = append(parts, fmt.Sprintf("(fmt_pd %d %s)", w, x))
+			case w >= 0:
+				parts = append(parts, fmt.Sprintf("(fmt_sd %d %s)", w, x))
+			default:
+				t.fail(n, "format verb")
+			}
+		case (verb == 's' || verb == 'v') && isBytes(at) && w < 0 && !zero && !prec:
+			parts = append(parts, x)
+		default:
+			t.fail(n, "format verb %%%c on %s", verb, at)
+		}
+	}
+	flush()
+	if ai != len(args) {
+		t.fail(n, "format string / argument mismatch")
+	}
+	t.usesFmt = true
+	if len(parts) == 0 {
+		return "[]"
+	}
+	return "(" + strings.Join(parts, " ++ ") + ")"
+}
+
 func isBool(t types.Type) bool {
 	b, ok := t.Underlying().(*types.Basic)
 	return ok && (b.Kind() == types.Bool || b.Kind() == types.UntypedBool)
@@ -199,8 +327,14 @@ func deref(t types.Type) types.Type {
 
 // coqType names the Gallina type of a Go type (registering records on the way).
 func (t *tr) coqType(n ast.Node, ty types.Type) string {
+	if isBuffer(ty) {
+		return "bytes"
+	}
 	ty = deref(ty)
 	if _, ok := intType(ty); ok {
+		return "Z"
+	}
+	if floatBits(ty) != 0 {
 		return "Z"
 	}
 	if isBool(ty) {
@@ -358,6 +492,9 @@ func (t *tr) expr(e ast.Expr, b *binds) string {
 	case *ast.StarExpr:
 		return t.expr(e.X, b)
 	case *ast.UnaryExpr:
+		if cl, ok := e.X.(*ast.CompositeLit); ok && e.Op == token.AND && isBuffer(t.info.TypeOf(cl)) && len(cl.Elts) == 0 {
+			return "[]"
+		}
 		x := t.expr(e.X, b)
 		switch e.Op {
 		case token.NOT:
@@ -369,7 +506,7 @@ func (t *tr) expr(e ast.Expr, b *binds) string {
 			it, _ := intType(tv.Type)
 			return wrapTo("(Z.lnot "+x+")", ity{}, it)
 		case token.AND:
-			return x // address of a value that is only read
+			return x // address of a value that is only read (&bytes.Buffer{}: the empty buffer)
 		case token.ADD:
 			return x
 		}
@@ -431,6 +568,16 @@ func (t *tr) expr(e ast.Expr, b *binds) string {
 				return t.expr(kv.Value, b)
 			}
 			return t.expr(e.Elts[0], b)
+		}
+		if isBytes(ty) || isIntList(ty) {
+			var els []string
+			for _, el := range e.Elts {
+				if _, ok := el.(*ast.KeyValueExpr); ok {
+					t.fail(e, "keyed slice literal")
+				}
+				els = append(els, t.expr(el, b))
+			}
+			return "[" + strings.Join(els, "; ") + "]"
 		}
 		st, ok := ty.Underlying().(*types.Struct)
 		if !ok {
@@ -665,6 +812,9 @@ func (t *tr) call(e *ast.CallExpr, b *binds, stmt bool) string {
 		}
 		to := tv.Type
 		from := t.info.TypeOf(e.Args[0])
+		if floatBits(to) != 0 || floatBits(from) != 0 {
+			t.fail(e, "conversion of a float outside strconv.AppendFloat")
+		}
 		x := t.expr(e.Args[0], b)
 		if ti, ok := intType(to); ok {
 			fi, ok2 := intType(from)
@@ -699,6 +849,8 @@ func (t *tr) call(e *ast.CallExpr, b *binds, stmt bool) string {
 				v := t.tmp()
 				b.add(fmt.Sprintf("do %s <- go_make %s;", v, t.expr(e.Args[1], b)))
 				return v
+			case "copy":
+				t.fail(e, "copy outside a statement")
 			case "append":
 				if len(e.Args) != 2 || e.Ellipsis.IsValid() {
 					t.fail(e, "append shape")
@@ -734,6 +886,84 @@ func (t *tr) call(e *ast.CallExpr, b *binds, stmt bool) string {
 		if sb.String() == "bytes.TrimRight" && len(e.Args) == 2 {
 			return "(go_trim_right " + t.expr(e.Args[0], b) + " " + t.expr(e.Args[1], b) + ")"
 		}
+		isNil := func(a ast.Expr) bool { id, ok := a.(*ast.Ident); return ok && id.Name == "nil" }
+		constIs := func(a ast.Expr, want int64) bool {
+			tv := t.info.Types[a]
+			if tv.Value == nil {
+				return false
+			}
+			v, ok := constant.Int64Val(constant.ToInt(tv.Value))
+			return ok && v == want
+		}
+		switch sb.String() {
+		case "strconv.AppendInt", "strconv.AppendUint":
+			// strconv.AppendInt(nil, x, 10): the decimal text of x
+			if len(e.Args) != 3 || !isNil(e.Args[0]) || !constIs(e.Args[2], 10) {
+				t.fail(e, "strconv.Append(U)int shape")
+			}
+			t.usesFmt = true
+			return "(fmt_d " + t.expr(e.Args[1], b) + ")"
+		case "strconv.AppendFloat":
+			// strconv.AppendFloat(nil, f, 'f', -1, N): the oracle ext_ffmt N (bits of f at width N)
+			if len(e.Args) != 5 || !isNil(e.Args[0]) || !constIs(e.Args[2], 'f') || !constIs(e.Args[3], -1) {
+				t.fail(e, "strconv.AppendFloat shape")
+			}
+			f := e.Args[1]
+			width := floatBits(t.info.TypeOf(f))
+			if c, ok := f.(*ast.CallExpr); ok {
+				if tv, ok := t.info.Types[c.Fun]; ok && tv.IsType() && floatBits(tv.Type) == 64 && len(c.Args) == 1 {
+					f = c.Args[0] // float64(x) with x a float32: formatted at width 32 below
+					width = floatBits(t.info.TypeOf(f))
+				}
+			}
+			if width == 0 || !constIs(e.Args[4], int64(width)) {
+				t.fail(e, "strconv.AppendFloat: the bit size does not match the operand")
+			}
+			return fmt.Sprintf("(%s %d %s)", t.oracle("ext_ffmt", "Z -> Z -> bytes"), width, t.expr(f, b))
+		case "math.Float32frombits", "math.Float64frombits":
+			return t.expr(e.Args[0], b)
+		case "fmt.Sprintf":
+			tv := t.info.Types[e.Args[0]]
+			if tv.Value == nil || tv.Value.Kind() != constant.String {
+				t.fail(e, "fmt.Sprintf with a non-constant format")
+			}
+			return t.fmtPieces(e, constant.StringVal(tv.Value), e.Args[1:], b)
+		}
+		// methods of a local bytes.Buffer that only read it
+		if isBuffer(t.info.TypeOf(sel.X)) && sel.Sel.Name == "Bytes" && len(e.Args) == 0 {
+			return t.expr(sel.X, b)
+		}
+	}
+	// oracles: package functions the generated file takes as parameters (ext_<name>)
+	if id, ok := e.Fun.(*ast.Ident); ok && t.externs[id.Name] {
+		fn, ok := t.info.Uses[id].(*types.Func)
+		if !ok || fn.Pkg() != t.pkg {
+			t.fail(e, "extern that is not a package function")
+		}
+		sig := fn.Type().(*types.Signature)
+		var pts, args []string
+		for i := 0; i < sig.Params().Len(); i++ {
+			pts = append(pts, t.coqType(e, sig.Params().At(i).Type()))
+			args = append(args, t.expr(e.Args[i], b))
+		}
+		res := sig.Results()
+		hasErr := res.Len() > 0 && isError(res.At(res.Len()-1).Type())
+		var rts []string
+		for i := 0; i < res.Len(); i++ {
+			if hasErr && i == res.Len()-1 {
+				continue
+			}
+			rts = append(rts, t.coqType(e, res.At(i).Type()))
+		}
+		rt := strings.Join(rts, " * ")
+		if hasErr {
+			name := t.oracle("ext_"+id.Name, strings.Join(pts, " -> ")+" -> res ("+rt+")")
+			v := t.tmp()
+			b.add(fmt.Sprintf("do %s <- %s %s;", v, name, strings.Join(args, " ")))
+			return v
+		}
+		name := t.oracle("ext_"+id.Name, strings.Join(pts, " -> ")+" -> "+rt)
+		return "(" + name + " " + strings.Join(args, " ") + ")"
 	}
 	// package function or method with a translation
 	var k string
@@ -776,6 +1006,9 @@ func (t *tr) call(e *ast.CallExpr, b *binds, stmt bool) string {
 		args = append(args, t.expr(recv, b))
 	}
 	for _, a := range e.Args {
+		if isBuffer(t.info.TypeOf(a)) {
+			t.fail(e, "a bytes.Buffer passed to a function (aliasing is not modelled)")
+		}
 		args = append(args, t.expr(a, b))
 	}
 	v := t.tmp()
@@ -858,6 +1091,11 @@ func (t *tr) stmts(list []ast.Stmt, k [][]ast.Stmt, ev env) string {
 		if c, ok := s.X.(*ast.CallExpr); ok {
 			if id, ok := c.Fun.(*ast.Ident); ok && id.Name == "panic" {
 				return "Panic"
+			}
+		}
+		if c, ok := s.X.(*ast.CallExpr); ok {
+			if r, ok := t.effectCall(c); ok {
+				return r + "\n  " + cont()
 			}
 		}
 		t.fail(s, "expression statement")
@@ -1103,6 +1341,52 @@ func (t *tr) stmts(list []ast.Stmt, k [][]ast.Stmt, ev env) string {
 		}
 		out := strings.Join(b.lines, " ")
 		closeP := ""
+		leaves := false
+		var blocks []ast.Stmt
+		for _, a := range arms {
+			blk := &ast.BlockStmt{List: a.body}
+			blocks = append(blocks, blk)
+			if t.exits(blk) {
+				leaves = true
+			}
+		}
+		if hasDefault {
+			blk := &ast.BlockStmt{List: deflt}
+			blocks = append(blocks, blk)
+			if t.exits(blk) {
+				leaves = true
+			}
+		}
+		if !leaves {
+			// no arm leaves: compute the variables the arms assign, then go on once (as for `if`)
+			var state []*types.Var
+			t.assigned(blocks, map[types.Object]bool{}, &state, map[types.Object]bool{})
+			var ns []string
+			for _, o := range state {
+				ns = append(ns, vname(o.Name()))
+			}
+			tuple, pat := "tt", "_"
+			if len(ns) == 1 {
+				tuple, pat = ns[0], ns[0]
+			} else if len(ns) > 1 {
+				tuple = "(" + strings.Join(ns, ", ") + ")"
+				pat = tuple
+			}
+			t.joins = append(t.joins, "Ok "+tuple)
+			marker := [][]ast.Stmt{{&ast.BadStmt{}}}
+			sw := ""
+			for _, a := range arms {
+				sw += fmt.Sprintf("\n  if %s then (\n  %s\n  ) else (", a.cond, t.stmts(a.body, marker, ev))
+				closeP += ")"
+			}
+			if hasDefault {
+				sw += "\n  " + t.stmts(deflt, marker, ev)
+			} else {
+				sw += "\n  Ok " + tuple
+			}
+			t.joins = t.joins[:len(t.joins)-1]
+			return fmt.Sprintf("%s\n  do %s <- (%s%s);\n  %s", out, pat, sw, closeP, cont())
+		}
 		for _, a := range arms {
 			out += fmt.Sprintf("\n  if %s then (\n  %s\n  ) else (", a.cond, t.stmts(a.body, push(), ev))
 			closeP += ")"
@@ -1116,6 +1400,61 @@ func (t *tr) stmts(list []ast.Stmt, k [][]ast.Stmt, ev env) string {
 	}
 	t.fail(s, "statement %T", s)
 	return ""
+}
+
+// bufferTarget: the local variable a buffer-mutating call statement writes to (txt.WriteByte(..), fmt.Fprintf(txt, ..),
+// copy(d, ..)), or nil.
+func (t *tr) bufferTarget(c *ast.CallExpr) *ast.Ident {
+	if sel, ok := c.Fun.(*ast.SelectorExpr); ok {
+		if id, ok := sel.X.(*ast.Ident); ok && isBuffer(t.info.TypeOf(id)) {
+			switch sel.Sel.Name {
+			case "WriteByte", "Write", "WriteString":
+				return id
+			}
+		}
+		if selName(t.fset, sel) == "fmt.Fprintf" && len(c.Args) >= 2 {
+			if id, ok := c.Args[0].(*ast.Ident); ok && isBuffer(t.info.TypeOf(id)) {
+				return id
+			}
+		}
+	}
+	if id, ok := c.Fun.(*ast.Ident); ok && id.Name == "copy" && len(c.Args) == 2 {
+		if _, isB := t.info.Uses[id].(*types.Builtin); isB {
+			if d, ok := c.Args[0].(*ast.Ident); ok && t.ownSlice[t.objOf(d)] {
+				return d
+			}
+		}
+	}
+	return nil
+}
+
+// effectCall translates a call statement that changes a local buffer or an owned slice into a rebinding of the variable.
+func (t *tr) effectCall(c *ast.CallExpr) (string, bool) {
+	id := t.bufferTarget(c)
+	if id == nil {
+		return "", false
+	}
+	var b binds
+	v := vname(id.Name)
+	var nv string
+	if fid, ok := c.Fun.(*ast.Ident); ok && fid.Name == "copy" {
+		nv = fmt.Sprintf("(go_copy %s %s)", v, t.expr(c.Args[1], &b))
+	} else {
+		sel := c.Fun.(*ast.SelectorExpr)
+		switch sel.Sel.Name {
+		case "WriteByte":
+			nv = fmt.Sprintf("(%s ++ [%s])", v, t.expr(c.Args[0], &b))
+		case "Write", "WriteString":
+			nv = fmt.Sprintf("(%s ++ %s)", v, t.expr(c.Args[0], &b))
+		case "Fprintf":
+			tv := t.info.Types[c.Args[1]]
+			if tv.Value == nil || tv.Value.Kind() != constant.String {
+				t.fail(c, "fmt.Fprintf with a non-constant format")
+			}
+			nv = fmt.Sprintf("(%s ++ %s)", v, t.fmtPieces(c, constant.StringVal(tv.Value), c.Args[2:], &b))
+		}
+	}
+	return strings.TrimSpace(strings.Join(b.lines, " ") + fmt.Sprintf(" let %s := %s in", v, nv)), true
 }
 
 // exits: the statement may leave the enclosing statement list other than by falling through its end
@@ -1189,6 +1528,12 @@ func (t *tr) assigned(list []ast.Stmt, declared map[types.Object]bool, out *[]*t
 				}
 			case *ast.IncDecStmt:
 				note(n.X)
+			case *ast.ExprStmt:
+				if c, ok := n.X.(*ast.CallExpr); ok {
+					if id := t.bufferTarget(c); id != nil {
+						note(id)
+					}
+				}
 			case *ast.DeclStmt:
 				if gd, ok := n.Decl.(*ast.GenDecl); ok {
 					for _, sp := range gd.Specs {
@@ -1289,7 +1634,7 @@ func (t *tr) store(n ast.Node, lhs ast.Expr, v string, vt types.Type, b *binds) 
 			ft, _ := intType(vt)
 			v = wrapTo(v, ft, it)
 		}
-		if isPtrToStruct(t.info.TypeOf(l)) {
+		if isPtrToStruct(t.info.TypeOf(l)) && !isBuffer(t.info.TypeOf(l)) {
 			t.fail(n, "assignment of a pointer")
 		}
 		return fmt.Sprintf("let %s := %s in", vname(l.Name), v)
@@ -1326,7 +1671,10 @@ func (t *tr) store(n ast.Node, lhs ast.Expr, v string, vt types.Type, b *binds) 
 			t.fail(n, "assignment to an element of %s", xt)
 		}
 		if isBytes(xt) {
-			t.fail(n, "assignment to a byte of a slice (aliasing is not modelled)")
+			id, ok := l.X.(*ast.Ident)
+			if !ok || !t.ownSlice[t.objOf(id)] {
+				t.fail(n, "assignment to a byte of a slice (aliasing is not modelled)")
+			}
 		}
 		if et, ok := intType(xt.Underlying().(interface{ Elem() types.Type }).Elem()); ok && vt != nil {
 			ft, _ := intType(vt)
@@ -1359,12 +1707,39 @@ func (t *tr) assign(s *ast.AssignStmt) string {
 			// x := &T{...}: a struct the function owns
 			if len(s.Lhs) == 1 && s.Tok == token.DEFINE {
 				if u, ok := s.Rhs[0].(*ast.UnaryExpr); ok && u.Op == token.AND {
-					if _, ok := u.X.(*ast.CompositeLit); ok {
+					if cl, ok := u.X.(*ast.CompositeLit); ok && !isBuffer(t.info.TypeOf(cl)) {
 						id := s.Lhs[0].(*ast.Ident)
 						t.ownPtr[t.objOf(id)] = true
 						v := t.expr(u.X, &b)
 						return join(strings.Join(b.lines, " "), fmt.Sprintf("let %s := %s in", vname(id.Name), v))
 					}
+				}
+			}
+			// d := make([]byte, n): a slice the function owns (element stores allowed, never aliased)
+			if len(s.Lhs) == 1 && s.Tok == token.DEFINE {
+				if c, ok := s.Rhs[0].(*ast.CallExpr); ok {
+					if fid, ok := c.Fun.(*ast.Ident); ok && fid.Name == "make" && isBytes(t.info.TypeOf(c)) {
+						if id, ok := s.Lhs[0].(*ast.Ident); ok {
+							t.ownSlice[t.objOf(id)] = true
+						}
+					}
+				}
+			}
+			for _, r := range s.Rhs {
+				base := r
+				for {
+					if se, ok := base.(*ast.SliceExpr); ok {
+						base = se.X
+						continue
+					}
+					if pe, ok := base.(*ast.ParenExpr); ok {
+						base = pe.X
+						continue
+					}
+					break
+				}
+				if id, ok := base.(*ast.Ident); ok && t.ownSlice[t.objOf(id)] {
+					t.fail(s, "an owned slice assigned to another variable (aliasing is not modelled)")
 				}
 			}
 			// evaluate all right-hand sides first
@@ -1505,7 +1880,13 @@ func (t *tr) function(k string) {
 	}
 	savedFuel, savedLoops, savedVar, savedDepth := t.usesFuel, t.loops, t.fuelVar, t.depth
 	t.usesFuel, t.loops, t.fuelVar, t.depth = false, nil, "fuel", 0
-	body := namedInit + t.stmts(fd.Body.List, nil, env{results: res})
+	var caseDefs []string
+	var body string
+	if t.split[k] {
+		body, caseDefs = t.splitSwitch(k, fd, params, rt, env{results: res})
+	} else {
+		body = namedInit + t.stmts(fd.Body.List, nil, env{results: res})
+	}
 	if strings.Contains(body, gname(k)+" ") {
 		t.fail(fd, "recursive function")
 	}
@@ -1517,8 +1898,76 @@ func (t *tr) function(k string) {
 	var src bytes.Buffer
 	pos := t.fset.Position(fd.Pos())
 	fmt.Fprintf(&src, "(* %s:%d  func %s *)\n", filepath.Base(pos.Filename), pos.Line, k)
-	t.done[k] = fmt.Sprintf("%sDefinition %s %s : res (%s) :=\n  %s.", src.String(), gname(k), strings.Join(params, " "), rt, body)
+	t.done[k] = strings.Join(caseDefs, "") + fmt.Sprintf("%sDefinition %s %s : res (%s) :=\n  %s.", src.String(), gname(k), strings.Join(params, " "), rt, body)
 	t.order = append(t.order, k)
+}
+
+// splitSwitch: a function whose body is one switch over a parameter, every case of which returns, is emitted as one
+// definition per case (<func>_<first case constant>_g, same parameters) and a dispatcher that calls them.
+func (t *tr) splitSwitch(k string, fd *ast.FuncDecl, params []string, rt string, ev env) (string, []string) {
+	if len(fd.Body.List) != 1 {
+		t.fail(fd, "split: the body is not a single switch")
+	}
+	sw, ok := fd.Body.List[0].(*ast.SwitchStmt)
+	if !ok || sw.Init != nil || sw.Tag == nil {
+		t.fail(fd, "split: the body is not a single switch over a value")
+	}
+	if _, ok := sw.Tag.(*ast.Ident); !ok {
+		t.fail(fd, "split: the switch is not over a parameter")
+	}
+	var b binds
+	tag := t.expr(sw.Tag, &b)
+	var pnames []string
+	for _, p := range params {
+		pnames = append(pnames, strings.Fields(strings.Trim(p, "()"))[0])
+	}
+	var defs []string
+	out, closeP := "", ""
+	deflt := "Err EOther"
+	anyFuel := false
+	for i, cs := range sw.Body.List {
+		cc := cs.(*ast.CaseClause)
+		for _, st := range cc.Body {
+			if br, ok := st.(*ast.BranchStmt); ok {
+				t.fail(br, "break or fallthrough in a split switch")
+			}
+		}
+		t.usesFuel = false
+		body := t.stmts(cc.Body, nil, ev)
+		usedFuel := t.usesFuel
+		anyFuel = anyFuel || usedFuel
+		if cc.List == nil {
+			deflt = body
+			continue
+		}
+		name := fmt.Sprintf("case%d", i)
+		var cs []string
+		for j, ce := range cc.List {
+			var cb binds
+			v := t.expr(ce, &cb)
+			if len(cb.lines) > 0 {
+				t.fail(ce, "case expression with effects")
+			}
+			if id, ok := ce.(*ast.Ident); ok && j == 0 {
+				name = id.Name
+			}
+			cs = append(cs, "("+tag+" =? "+v+")")
+		}
+		dn := strings.TrimSuffix(gname(k), "_g") + "_" + name + "_g"
+		ps := append([]string{}, params...)
+		as := append([]string{}, pnames...)
+		if usedFuel {
+			ps = append([]string{"(fuel : nat)"}, ps...)
+			as = append([]string{"fuel"}, as...)
+		}
+		pos := t.fset.Position(cc.Pos())
+		defs = append(defs, fmt.Sprintf("(* %s:%d  func %s, case %s *)\nDefinition %s %s : res (%s) :=\n  %s.\n\n",
+			filepath.Base(pos.Filename), pos.Line, k, name, dn, strings.Join(ps, " "), rt, body))
+		out += fmt.Sprintf("\n  if %s then %s %s else (", strings.Join(cs, " || "), dn, strings.Join(as, " "))
+		closeP += ")"
+	}
+	t.usesFuel = anyFuel
+	return strings.Join(b.lines, " ") + out + "\n  " + deflt + closeP, defs
 }
 
 func main() {
@@ -1528,10 +1977,22 @@ func main() {
 	dir, out, want := os.Args[1], os.Args[2], os.Args[3:]
 	// use=TransA,TransB: functions and records already generated in gen/TransA.v ... are imported, not repeated
 	var uses []string
-	if len(want) > 0 && strings.HasPrefix(want[0], "use=") {
-		for _, u := range strings.Split(strings.TrimPrefix(want[0], "use="), ",") {
-			if u != "" {
+	externs, split := map[string]bool{}, map[string]bool{}
+	for len(want) > 0 && strings.Contains(want[0], "=") {
+		kv := strings.SplitN(want[0], "=", 2)
+		for _, u := range strings.Split(kv[1], ",") {
+			if u == "" {
+				continue
+			}
+			switch kv[0] {
+			case "use":
 				uses = append(uses, u)
+			case "extern":
+				externs[u] = true
+			case "split":
+				split[u] = true
+			default:
+				die("unknown option %s", kv[0])
 			}
 		}
 		want = want[1:]
@@ -1565,7 +2026,8 @@ func main() {
 		die("type check: %v", err)
 	}
 	t := &tr{fset: fset, info: info, pkg: pkg, funcs: map[string]*ast.FuncDecl{}, done: map[string]string{}, tables: map[string]string{},
-		records: map[string]string{}, deadErr: map[types.Object]bool{}, needsFuel: map[string]bool{}, ownPtr: map[types.Object]bool{}, fuelVar: "fuel"}
+		records: map[string]string{}, deadErr: map[types.Object]bool{}, needsFuel: map[string]bool{}, ownPtr: map[types.Object]bool{}, fuelVar: "fuel",
+		externs: externs, split: split, ownSlice: map[types.Object]bool{}, extUsed: map[string]string{}}
 	for _, f := range fileList {
 		for _, d := range f.Decls {
 			if fd, ok := d.(*ast.FuncDecl); ok && fd.Body != nil {
@@ -1623,6 +2085,9 @@ func main() {
 	var w bytes.Buffer
 	fmt.Fprintf(&w, "(* GENERATED by harness/cmd/gotrans from the Go sources of %s - do not edit.\n   Functions: %s *)\n", filepath.Base(dir), strings.Join(want, " "))
 	w.WriteString("From GB Require Import Base.Prelude Base.GoSem.\n")
+	if t.usesFmt {
+		w.WriteString("From GB Require Import Base.DecText Base.GoFmt.\n")
+	}
 	if len(uses) > 0 {
 		w.WriteString("From GBGen Require Import " + strings.Join(uses, " ") + ".\n")
 	}
@@ -1645,8 +2110,19 @@ func main() {
 		w.WriteString(t.tables[n] + "\n")
 	}
 	w.WriteString("\n")
+	if len(t.extOrder) > 0 {
+		// oracles: library or environment behaviour the generated definitions are parametric in
+		w.WriteString("Section Oracles.\n")
+		for _, n := range t.extOrder {
+			fmt.Fprintf(&w, "Variable %s : %s.\n", n, t.extUsed[n])
+		}
+		w.WriteString("\n")
+	}
 	for _, k := range t.order {
 		w.WriteString(t.done[k] + "\n\n")
+	}
+	if len(t.extOrder) > 0 {
+		w.WriteString("End Oracles.\n")
 	}
 	old, _ := os.ReadFile(out)
 	if !bytes.Equal(old, w.Bytes()) {
